@@ -652,7 +652,7 @@ func c15ModelJob(c *lab.Ctx) {
 		"unknown value?, outcome subset/fallback-nonempty/fallback-empty/nil, min(|S|,3))")
 	u := c15NewUniverse([]string{"b", "d", "f"}, []string{"x", "y", "z"}, "w", []string{"a", "c", "g"}, false)
 	e := c15NewEngine(c, u)
-	total := c.Pick(20320, 203200) // multiples of 127*3 selector-set x policy combinations... (381*~53 / ~533)
+	total := c.Pick(20320, 203200) // 127 selector sets x 3 policies = 381 systematic combinations, each ~53 / ~533 times
 	nb := c.NBatch
 	if nb < 1 {
 		nb = 1
